@@ -226,3 +226,15 @@ PROPS['C17'] = {
     'assumptions': A_COMMON,
     'not_decided': ['pairwise distinctness of all proposed neighbours of a tree (whole-tree fact, L6)', 'Undo o Apply = identity as a single machine-checked statement (it is the composition of the two proved transformers; Apply establishes Undo\'s precondition)', 'adjacency of the two ends of every branch returned by Edges (symmetric adjacency) is an unestablished precondition of newNNI at its call site in Rearrange'],
 }
+
+PROPS['C16'] = {
+    'level': 'proof', 'claimed': True,
+    'claim': 'unbounded proofs on the real code: GraftTipOnEdge subdivides the branch in place (same neighbour slots on both ends) by a fresh inner node of degree three, gives both halves exactly half of the old length and the new tip branch length 1, re-establishes the representation and orientation invariants; NewNode/ConnectNodes likewise; RandomUniformBinaryTree rejects fewer than 3 tips with an error, draws the insertion branch with rand.Intn(len(edges)) among all branches created so far (two are appended per grafted tip, one or two in the first round), grafts the new tip on exactly that branch, and gives the branches it creates a non-negative length (first round: the second root branch when rooted / the first branch when unrooted; later rounds: both new branches)',
+    'level_note': INVNOTE,
+    'packages': ['./tree', './hashmap'],
+    'functions': ['(*tree.Tree).GraftTipOnEdge', '(*tree.Tree).NewNode', '(*tree.Tree).ConnectNodes',
+                  ('tree.RandomUniformBinaryTree', {'match': [r'^post', r'^callsite', r'^step', r'^inv', r'^bounds']})],
+    'trusted_base': TB_COMMON,
+    'assumptions': A_COMMON,
+    'not_decided': ['each of the (2n-5)!! / (2n-3)!! topologies exactly once (combinatorial bijection)', 'uniqueness of generated tip names (strconv.Itoa injective: trusted)'],
+}
